@@ -7,133 +7,183 @@ HERE = os.path.dirname(os.path.abspath(__file__))
 ROOT = os.path.dirname(HERE)
 
 TB = ("Trusted base (DESIGN.md section 6): Coq 8.16.1 kernel, vm_compute only (no native_compute), no axioms (every "
-      "theorem prints 'Closed under the global context'); tools/gen_consts.py (AST -> Gen/Consts.v); extraction with "
-      "ExtrOcamlBasic + ExtrOcamlString only and rocq/ocaml/driver.ml, cross-checked against vm_compute on a sample of "
-      "every run; the Python harness (generators, canonicaliser, ratio-printing shim, oracle written from the property "
-      "text); rdflib where named.  ")
+      "recorded Print Assumptions output reads 'Closed under the global context'); tools/gen_consts.py (AST -> "
+      "Gen/Consts.v, Gen/ConstsProfile.v, with one generated flag per repaired function that the model follows); "
+      "extraction with ExtrOcamlBasic + ExtrOcamlString only and rocq/ocaml/driver.ml, cross-checked against vm_compute "
+      "on a sample of every run; the Python harness (generators, canonicaliser, ratio-printing shim, oracle written from "
+      "the property text); rdflib where named.  ")
 
 CLAIMED = {
     "C01": {
-        "text": "Coq theorems, closed under the global context, about the executable model of the extraction pipeline "
-                "(tracker, profiler, shexing, ShExC serialiser), for ALL graphs, configurations, thresholds and both "
-                "frequency algebras: the class profile holds exactly the declarative counts occ / class_count of "
-                "Spec/Counts.v (Props/P1.v); the header count of every shape is the class count of the tracker's "
-                "dictionary (C01_header_counts_exact, C01_header_is_number_of_instances); every constraint line and "
-                "every comment carries the count, probability and ORIGINAL cardinality of one declarative count, or -- "
-                "for the merged NONLITERAL alternative only -- the sum of two (C01_figures_exact, C01_fig_occ_cases, "
-                "C01_line_exact, C01_comment_exact); binary64 ratios never exceed 1 (C01_ratio_at_most_one_e2e); the same "
-                "for shape-map runs (C01_map_figures_exact).  Tied to /repo on every run: the model's ShExC text equals "
-                "the real Shaper's byte for byte on every generated case (class mode and shape maps), all printed "
-                "figures are compared, and an independent recount recomputes every figure from the abstract triples.",
+        "text": "Coq theorems, closed under the global context, about the executable model of the extraction "
+                "pipeline (tracker, profiler, shexing, ShExC serialiser), for ALL graphs, configurations, thresholds "
+                "and both frequency algebras: the class profile holds exactly the declarative counts occ / "
+                "class_count of Spec/Counts.v (Props/P1.v); the header count of every shape is the class count of "
+                "the tracker's dictionary (C01_header_counts_exact, C01_header_is_number_of_instances); every "
+                "constraint line and every comment carries the count, probability and ORIGINAL cardinality of one "
+                "declarative count, or -- for the merged NONLITERAL alternative only -- the sum of two "
+                "(C01_figures_exact, C01_fig_occ_cases, C01_line_exact, C01_comment_exact; for the run with the "
+                "shexing stage in the order of the code, no domain: E2E_cur_figures_exact); binary64 ratios never "
+                "exceed 1 (C01_ratio_at_most_one_e2e); the same for shape-map runs (C01_map_figures_exact); and for "
+                "profile_graph: the TEXT is json.dumps(profile, indent=2) of the profiler's object, every number in "
+                "it is the occ its path names, every positive count is printed, and a total parser reads the text "
+                "back (C01_profile_json_figures, C01_profile_json_complete, C01_profile_round_trip, "
+                "C01_profile_text_figures).  Tied to /repo on every run: the model's ShExC text and profile text "
+                "equal the real Shaper's byte for byte on every generated case (class mode and shape maps; string "
+                "and file sink), all printed figures are compared, and an independent recount recomputes every "
+                "figure from the abstract triples.",
         "design": "DESIGN.md sections 0a, 6, 11 (C01)",
         "note": TB + "Partial: the NONLITERAL figure is a sum (C01_nonliteral_overlap_refuted, "
-                "C01_nonliteral_mixed_cards_refuted: findings C01-F1, C01-F3, known) and classes sharing a local name "
-                "share a label (C01_shared_label_refuted: C01-F2, known).  The decimal rendering of a ratio is the shim. "
-                "Input is delivered through the N-Triples reader (C06's subject).",
-        "technique": "Coq proof by induction over folds / dictionaries (profile = declarative counts; figures = profile "
-                     "entries), composed end to end; byte-exact differential correspondence of the extracted model; "
-                     "recount oracle",
+                "C01_nonliteral_mixed_cards_refuted: findings C01-F1, C01-F3, known) and classes sharing a local "
+                "name share a label (C01_shared_label_refuted: C01-F2, known).  Most run theorems are stated about "
+                "Run.run_shapes (old order of the shexing stage) and reach the code through Props/ShexStage.v: "
+                "E2E_class_mode_order_irrelevant on its stated domain (DESIGN.md section 10).  The proof gate also "
+                "recompiles P1, ShexStage and FreqLawsProps; Lib/Bin64 is compared with CPython floats on every run "
+                "(bin64_vs_cpython).  The decimal rendering of a ratio is the shim.  Input is delivered through the "
+                "N-Triples reader (C06's subject); literal contents are alphanumeric and the class-mode stream uses "
+                "rdf:type only: the seeded changes C01-m5 (literal spelled like a node's IRI) and C01-m6 (custom "
+                "instantiation property) are MISSED at present (DESIGN.md section 12).",
+        "technique": "Coq proof by induction over folds / dictionaries (profile = declarative counts; figures = "
+                     "profile entries), composed end to end; executable rendering of json.dumps with a round-trip "
+                     "parser; byte-exact differential correspondence of the extracted model; recount oracle",
     },
     "C02": {
-        "text": "Coq theorems for ALL graphs, thresholds and switch settings: with empty shapes kept a shape has the key "
-                "(direction, property, value class) iff some declarative count of that key reaches the threshold, no key "
-                "twice, one shape per class key in order (C02_keys_iff_occ, C02_one_shape_per_class_keep); with CPython's "
-                "binary64 comparison iff the LARGEST count does, so the boundary is kept (C02_keys_max_e2e); with "
-                "remove_empty_shapes on, thresholds <= 1 and ordinary class IRIs the same iff up to type keys that are "
-                "removed classes (C02_keys_iff_occ_remove, C02_keys_iff_occ_remove_all_classes, "
-                "C02_one_shape_per_class_remove); for the value class 'non-literal' the key is present iff thr <= "
-                "(#instances with an IRI or blank-node value)/N whenever the two kinds are nested (C02_keys_iff_union, "
-                "C02_keys_iff_union_remove); shape-map runs: C02_map_keys_iff_occ, C02_map_keys_remove.  Tied to /repo "
-                "by the byte-exact correspondence and an exact-rational oracle recomputing every key set on every k/n "
-                "threshold boundary.",
+        "text": "Coq theorems for ALL graphs, thresholds and switch settings: with empty shapes kept a shape has the "
+                "key (direction, property, value class) iff some declarative count of that key reaches the "
+                "threshold, no key twice, one shape per class key in order (C02_keys_iff_occ, "
+                "C02_one_shape_per_class_keep); with CPython's binary64 comparison iff the LARGEST count does, so "
+                "the boundary is kept (C02_keys_max_e2e); with remove_empty_shapes on, thresholds <= 1 and ordinary "
+                "class IRIs the same iff up to type keys that are removed classes (C02_keys_iff_occ_remove, "
+                "C02_keys_iff_occ_remove_all_classes, C02_one_shape_per_class_remove); for the value class "
+                "'non-literal' the key is present iff thr <= (#instances with an IRI or blank-node value)/N whenever "
+                "the two kinds are nested (C02_keys_iff_union, C02_keys_iff_union_remove); shape-map runs: "
+                "C02_map_keys_iff_occ, C02_map_keys_remove.  Tied to /repo by the byte-exact correspondence and an "
+                "exact-rational oracle recomputing every key set on every k/n threshold boundary.",
         "design": "DESIGN.md sections 0a, 6, 11 (C02)",
         "note": TB + "Partial: without nestedness only an inequality holds and the union reading is refuted "
                 "(C02_split_nonliteral_refuted: C02-F1, known); a requested class that is also a value of the "
                 "instantiation property loses a key (C02_remove_dead_key_refuted: C02-F3, known); shape maps with "
                 "remove_empty_shapes: soundness only.  Fixed in /repo: C02-F2 (a3b99df, "
-                "C02_removed_reference_run_fixed).",
+                "C02_removed_reference_run_fixed).  The run theorems are about Run.run_shapes (old stage order) and "
+                "reach the code through E2E_class_mode_order_irrelevant / E2E_cur_keys_iff_occ (Props/ShexStage.v, "
+                "part of the proof gate with P1 and FreqLawsProps); Lib/Bin64 is compared with CPython floats on "
+                "every run.",
         "technique": "Coq proof (selection invariants of the two merge loops, monotone binary64 ratio, input-level "
-                     "discharge of the cleaning hypotheses) + differential correspondence + exact-rational recount oracle",
+                     "discharge of the cleaning hypotheses) + differential correspondence + exact-rational recount "
+                     "oracle",
     },
     "C03": {
-        "text": "Coq theorems about the validated pipeline model: switching all_instances_are_compliant_mode off never "
-                "changes a cardinality and yields no ?/* (C03_mode_off_keeps_cards, C03_mode_on_off); under "
+        "text": "Coq theorems about the validated pipeline model: switching all_instances_are_compliant_mode off "
+                "never changes a cardinality and yields no ?/* (C03_mode_off_keeps_cards, C03_mode_on_off); under "
                 "keep_less_specific a '?' comes from a {1} candidate that tied with its '+' sibling "
-                "(C03_relaxed_card_sound, C03_opt_at_most_one, C03_cardinalities); and CONFORMANCE with no premise left: "
-                "for every graph of the property's strict domain (strict_domb) and every configuration with "
+                "(C03_relaxed_card_sound, C03_opt_at_most_one, C03_cardinalities); and CONFORMANCE with no premise "
+                "left: for every graph of the property's strict domain (strict_domb) and every configuration with "
                 "keep_less_specific, all-compliant mode, no disjunctions, all-classes mode, no cap, default shapes "
-                "namespace, threshold 0 and ANY value of the other options, the instance typing is a valid typing of the "
-                "extracted schema under the ShEx semantics of Spec/ShexSem.v (C03_conformance for binary64 and fewer "
-                "than 2^53 triples, C03_conformance_exact unbounded; C03_conformance_partial keeps the premise form for "
-                "target classes / caps).  The ORACLE on the real ShExC text is the EXTRACTED Coq validator "
+                "namespace, threshold 0 and ANY value of the other options, the instance typing is a valid typing of "
+                "the extracted schema under the ShEx semantics of Spec/ShexSem.v (C03_conformance for binary64 and "
+                "fewer than 2^53 triples, C03_conformance_exact unbounded; C03_conformance_partial keeps the premise "
+                "form for target classes / caps).  The ORACLE on the real ShExC text is the EXTRACTED Coq validator "
                 "(valid_typingb), judging every (instance, shape) pair; both mode settings are corresponded.",
         "design": "DESIGN.md sections 0a, 6, 11 (C03)",
         "note": TB + "Outside strict_domb the guarantee is false: C03_reference_tie_refuted, "
-                "C03_nonliteral_overlap_refuted, C03_keep_less_specific_false_refuted (findings C03-F1, C03-F2, C03-F3, "
-                "known).  Disjunctions and thresholds other than 0 are outside the domain.  Also trusted: the ShExC "
-                "canonicaliser that feeds the extracted validator.",
-        "technique": "Coq theorems about the pipeline model composed with P1; ShEx semantics written as a decidable Spec "
-                     "and extracted to OCaml as the oracle on real output; differential correspondence",
+                "C03_nonliteral_overlap_refuted, C03_keep_less_specific_false_refuted (findings C03-F1, C03-F2, "
+                "C03-F3, known).  Disjunctions and thresholds other than 0 are outside the domain.  Also trusted: "
+                "the ShExC canonicaliser that feeds the extracted validator.  The harness mirrors strict_domb in "
+                "Python and compares it with Coq's on every case; after a generator change the two disagreed (two "
+                "literals differing only in their language tag) and the check stopped with INTERNAL-ERROR on every "
+                "seeded run until repaired (d041ea9, DESIGN.md section 10); the committed evidence is the thorough "
+                "pass after the repair; seeds C03-m1 ... m3 are caught again, the re-run of m4-m6 was pending.",
+        "technique": "Coq theorems about the pipeline model composed with P1; ShEx semantics written as a decidable "
+                     "Spec and extracted to OCaml as the oracle on real output; differential correspondence",
     },
     "C04": {
         "text": "Coq theorems about a model in which every unguarded dereference, index, key lookup and raise of the "
                 "modelled Python code is an explicit error outcome: for every input satisfying valid_input (typing "
                 "triples have node objects, no string starts with the shape sentinel, disjunctions disabled or empty "
-                "shapes kept, a priority prefix free) the whole run -- tracker, profiler, shexing, serialiser -- yields "
-                "shapes and text for every frequency algebra, threshold and value of the other options (C04_run_total, "
-                "C04_run_shexc_total), for ANY options with binary64 and thresholds <= 1 "
+                "shapes kept, a priority prefix free) the whole run -- tracker, profiler, shexing, serialiser -- "
+                "yields shapes and text for every frequency algebra, threshold and value of the other options "
+                "(C04_run_total, C04_run_shexc_total), for ANY options with binary64 and thresholds <= 1 "
                 "(C04_run_shexc_total_any_options), and every error outcome violates one of the conditions "
                 "(C04_errors_characterised, C04_text_errors_characterised); shape-map runs: "
-                "C04_map_errors_characterised, C04_map_run_total_tokens.  Tied to /repo by comparing the outcome "
+                "C04_map_errors_characterised, C04_map_run_total_tokens; SHACL output of shape-map runs "
+                "(Model/RunMapShacl.v): the serialiser returns exactly when it builds the graph and rdflib's writer "
+                "accepts every IRI, and with the repaired _add_target_class every run with printable labels "
+                "serialises (C04_shacl_output_ok_iff, C04_map_shacl_total); profile_graph: rendering is total and a "
+                "text comes out on exactly the inputs on which tracker and profiler succeed "
+                "(C04_profile_json_total_iff, C04_profile_json_errors).  Tied to /repo by comparing the outcome "
                 "(result / exception class) of the real shex_graph with the model's on adversarial graphs and shape "
-                "maps; SHACL output and profile_graph (string and file sinks) are exercised under a crash oracle.",
+                "maps; every SHACL run is compared with the document model by isomorphism, every profile text and "
+                "every decorated text (examples_mode / detect_minimal_iri) byte for byte; crash oracle over ShExC "
+                "string / file, SHACL, profile string / file.",
         "design": "DESIGN.md sections 0a, 6, 11 (C04)",
-        "note": TB + "Observed only, not modelled: profile_graph, SHACL output of shape-map runs.  Known: C04-F2 (SHACL "
-                "output of any shape-map extraction raises; the repair 72d68cb of C10 extended this crash to prefixed "
-                "labels; repair in preparation, notes/proposed_fixes/C04-shacl-target-class-corners.diff).  Fixed in "
-                "/repo: C04-X-bfff754, C04-X-875505f, C04-X-6f5760d, C04-X-19ce196, C04-F1 (a3b99df, "
-                "C04_choice_prune_run_fixed).",
-        "technique": "Coq totality proof over an error-explicit model, composed end to end + differential outcome "
-                     "correspondence + crash search over adversarial graphs x configurations x output kinds",
+        "note": TB + "Known: C04-F3 (SHACL output with disable_or_statements=False raises TypeError whenever the shapes "
+                "hold a disjunction: C04_shacl_choice_never, C04_shacl_choice_type_error, C04_shacl_choice_refuted; "
+                "a repair would be a design decision), C04-F4 (a typing statement with a literal object raises "
+                "AttributeError, = C10-F6; C04_literal_class_refuted; which runs fail is predicted exactly).  Fixed "
+                "in /repo: C04-X-bfff754, C04-X-875505f, C04-X-6f5760d, C04-X-19ce196, C04-F1 (a3b99df, "
+                "C04_choice_prune_run_fixed), C04-X-e73c6a2 (found as C04-F2: SHACL of any shape-map extraction "
+                "raised; C04_map_shacl_fails_old / C04_map_shacl_fixed), C04-X-a9573a5 (found as C17-F4).  Run "
+                "theorems about Run.run_shexc reach the code through E2E_class_mode_order_irrelevant (DESIGN.md "
+                "section 10).",
+        "technique": "Coq totality proof over an error-explicit model, composed end to end, incl. the SHACL document "
+                     "and the profile text + differential outcome correspondence + crash search over adversarial "
+                     "graphs x configurations x output kinds",
     },
     "C05": {
         "text": "Coq theorems: from a boolean condition on the input alone (c05_input_ok: default shapes namespace, "
-                "class IRIs with distinct labels and PN_LOCAL local names, a user dictionary leaving a priority prefix "
-                "free) the run succeeds and its ShExC text is accepted by a recogniser written from the ShEx 2.1 grammar, "
-                "has a functional prefix map, only declared prefixes, distinct labels and resolving references, for "
-                "every frequency algebra and threshold (C05_run_wellformed; any options for thresholds <= 1: "
-                "C05_run_wellformed_any_options); the empty-shape cleaning preserves closure (Props/C05refs.v); the "
-                "SHACL output, as the abstract graph of Model/ShaclDoc.v, has every sh:node object declared, exactly one "
-                "path per property shape and one node shape with one sh:targetClass per shape "
-                "(C05_shacl_node_objects_declared, C05_shacl_one_path, C05_shacl_node_shapes_iff, C05_shacl_run).  Tied "
-                "to /repo: ShExC text byte for byte; the EXTRACTED recogniser and closure checks run on every real "
-                "text; every real SHACL document is compared with the model's graph by isomorphism.",
+                "class IRIs with distinct labels and PN_LOCAL local names, a user dictionary leaving a priority "
+                "prefix free) the run succeeds and its ShExC text is accepted by a recogniser written from the ShEx "
+                "2.1 grammar, has a functional prefix map, only declared prefixes, distinct labels and resolving "
+                "references, for every frequency algebra and threshold (C05_run_wellformed; any options for "
+                "thresholds <= 1: C05_run_wellformed_any_options); the empty-shape cleaning preserves closure "
+                "(Props/C05refs.v); the SHACL output, as the abstract graph of Model/ShaclDoc.v, has every sh:node "
+                "object declared, exactly one path per property shape and one node shape with one sh:targetClass per "
+                "shape (C05_shacl_node_objects_declared, C05_shacl_one_path, C05_shacl_node_shapes_iff, "
+                "C05_shacl_run; sh:targetClass is the class key with one pair of corners removed, the key itself for "
+                "class-based runs: C05_target_class_obj_cases, C05_run_classes_plain); the same S1-S3 for shape-map "
+                "runs (C05_map_shacl_graph, C05_map_pure_shacl_run).  Tied to /repo: ShExC text byte for byte, also "
+                "through output_file at a path that already holds a schema and for a document beyond the 5000-line "
+                "buffer; the EXTRACTED recogniser and closure checks run on every real text; every real SHACL "
+                "document is compared with the model's graph by isomorphism.",
         "design": "DESIGN.md sections 0a, 6, 11 (C05)",
         "note": TB + "Known findings, each refuted in Coq: C05-F1 (custom shapes_namespace: dangling references, pinned "
                 "by golden files; C05_custom_namespace_refuted), C05-F2 (shared local names: one label twice; "
                 "C05_shared_local_name_refuted), C05-F3 (a parsed prefix already in use is declared twice; "
-                "C05_parsed_prefix_collision_rejected, Spec level).  The random prefix fallback and prefixes adopted from "
-                "rdflib-parsed input are oracle-only; the theorems speak of class-mode runs (shape-map texts are "
-                "corresponded and judged by the oracle).  Trusted: the Spec recogniser (a subset of the grammar).",
+                "C05_parsed_prefix_collision_rejected, Spec level).  The random prefix fallback and prefixes adopted "
+                "from rdflib-parsed input are oracle-only; the theorems speak of class-mode runs (shape-map texts "
+                "are corresponded and judged by the oracle).  Trusted: the Spec recogniser (a subset of the "
+                "grammar).",
         "technique": "Coq: lexer + parser automaton compositional over ++, token lemmas, closure invariant of the "
-                     "cleaning loop, input-level discharge; byte-exact correspondence; extracted-Spec oracle on real output",
+                     "cleaning loop, input-level discharge; byte-exact correspondence; extracted-Spec oracle on real "
+                     "output",
     },
     "C06": {
-        "text": "Coq theorems (no fuel or length bound) about an executable model of the N-Triples reader that carries "
-                "BOTH texts of the tokeniser and of decide_literal_type and follows flags regenerated from /repo "
-                "(nt_fixed_tok, nt_fixed_dlt): for every valid statement and layout of C06_dom_cur reading the rendered "
-                "line yields exactly the kinded triple, zero error lines, no exception and no hang (C06_partial, "
-                "C06_terminates), whole documents in order (C06_document_partial), the domain is exactly 'no root cause "
-                "present' (C06_dom_is_no_root_cause), and the repairs only enlarged it (C06_repairs_enlarge_domain).  "
-                "Tied to /repo by bounded-exhaustive correspondence: every lexical form of <= 3 (thorough <= 4) symbols "
-                "of an adversarial alphabet x suffixes x separator layouts x dot / comment variants x subjects (quick "
-                "896 852 evaluations), every real call under SIGALRM, the abstract triple as oracle, rdflib's parser "
-                "validating the generator.",
+        "text": "Coq theorems (no fuel or length bound) about an executable model of the N-Triples reader that "
+                "carries EVERY text the reader has had and follows flags regenerated from /repo (nt_fixed_tok, "
+                "nt_fixed_dlt, nt_tok_end_at_hash, nt_uri_unclosed_to_eol, nt_skips_comment_lines; all true at /repo "
+                "5ceb1a7).  Under these flags the FULL statement: for EVERY valid statement and EVERY valid layout "
+                "reading the rendered line yields exactly the kinded triple, zero error lines, no exception, no hang "
+                "(C06), whole documents in order (C06_document), every valid document with comment lines and blank "
+                "lines, from a raw string or a file (C06_document_lines), and no text at all, valid or not, makes "
+                "the reader hang (C06_terminates).  The same for the model of the fully repaired reader whatever "
+                "/repo holds (C06_fully_repaired_reader ...), and relative to any flag values on C06_dom_cur "
+                "(C06_partial, C06_dom_is_no_root_cause, C06_repairs_enlarge_domain).  Props/C06Channels.v composes "
+                "this reader with C08's channels and the pipeline (C06_channel_text_to_graph_full, "
+                "C06_channel_never_hangs).  Tied to /repo by bounded-exhaustive correspondence: every lexical form "
+                "of <= 3 (thorough <= 4) symbols of an adversarial alphabet x suffixes x separator layouts x dot / "
+                "comment variants x subjects (896 244 valid lines per quick run), 19 783 lines of arbitrary text "
+                "(model vs implementation, no hang), documents with comment / blank lines from string and file, "
+                "every real call under SIGALRM, the abstract triple as oracle, rdflib's parser validating the "
+                "generator.",
         "design": "DESIGN.md sections 0a, 6, 11 (C06)",
-        "note": TB + "After ten repairs in /repo (C06-X-de802c9, C06-X-569e07d, C06-F1 ... C06-F8 by 9171edc, 6538a5e, "
-                "0a5a576; the witnesses C06_F1_refuted ... C06_F8_refuted speak of the old text) one root cause is left: "
-                "C06-F7r, known ('_:b.#comment': C06_F7_refuted_all_repairs), hence C06_full_refuted.  Lexical forms "
-                "are not compared (the property does not ask for them).",
+        "note": TB + "No known finding is left.  Twelve repairs in /repo: C06-X-de802c9, C06-X-569e07d, C06-F1 ... C06-F8 "
+                "(9171edc, 6538a5e, 0a5a576), C06-X-5a4aa62 (found as C06-F7r: '_:b.#comment', and a HANG on a '<' "
+                "that is never closed), C06-X-0a5a744 (found as C06-F9: comment lines read as statements, comment / "
+                "blank lines counted as errors); the witnesses C06_F1_refuted ... C06_F9_refuted, "
+                "C06_F7r_hang_refuted, C06_full_refuted, C06_terminates_refuted, C06_document_lines_refuted speak of "
+                "texts /repo no longer has.  The full statements have the form 'flag = true -> ...': they are about "
+                "/repo as long as tools/gen_consts.py generates the flags as true.  Lexical forms are not compared "
+                "(the property does not ask for them).",
         "technique": "executable Gallina model of the reader; induction over items / characters; bounded-exhaustive "
                      "differential correspondence; Gallina domain classifier evaluated by the model binary",
     },
@@ -159,245 +209,317 @@ CLAIMED = {
                      "correspondence bounded-exhaustive over layouts",
     },
     "C08": {
-        "text": "Coq theorems about an executable model of the plumbing that turns a source into the two triple streams "
-                "of the two passes (dispatch tables generated from the AST): ANY partition of the lines into files / zip "
-                "members / archives and any documented compression gives the stream of the single raw string -- with no "
-                "hypothesis left for N-Triples (C06's reader plugged in, all lines valid or not: "
+        "text": "Coq theorems about an executable model of the plumbing that turns a source into the two triple "
+                "streams of the two passes (dispatch tables generated from the AST): ANY partition of the lines into "
+                "files / zip members / archives and any documented compression gives the stream of the single raw "
+                "string -- with no hypothesis left for N-Triples (C06's reader plugged in, all lines valid or not: "
                 "C08_channel_independent_nt) and TSV (C08_tsv_channel_independent); both passes see the same stream "
-                "(C08_both_passes_same); rdflib's per-pass permutation and blank-node renamings are invisible when no "
-                "blank node is an instance or class (C08_rdflib_counts_invariant, composed with C09); every accepted "
-                "combination reaches the documented yielder (C08_dispatch_total); rdflib channels type literals as the "
-                "N-Triples reader does (C08_rdflib_literal_typing); from the TEXT to the shapes for N-Triples, TSV and "
-                "TURTLE_ITER (C08_nt_text_to_graph, C08_turtle_iter_channel_is_C07, C08_nt_vs_turtle_iter_permuted).  "
-                "Tied to /repo by a metamorphic oracle over 41 channels per graph, stream correspondence with the real "
-                "readers, exhaustive dispatch and line-reader correspondence.",
+                "(C08_both_passes_same); rdflib's per-pass permutation and blank-node renamings are invisible when "
+                "no blank node is an instance or class (C08_rdflib_counts_invariant, composed with C09); every "
+                "accepted combination reaches the documented yielder (C08_dispatch_total); rdflib channels type "
+                "literals as the N-Triples reader does (C08_rdflib_literal_typing); from the TEXT to the shapes for "
+                "N-Triples, TSV and TURTLE_ITER (C08_nt_text_to_graph, C08_turtle_iter_channel_is_C07, "
+                "C08_nt_vs_turtle_iter_permuted).  Tied to /repo by a metamorphic oracle over 41 channels per graph, "
+                "stream correspondence with the real readers, exhaustive dispatch and line-reader correspondence.",
         "design": "DESIGN.md sections 0a, 6, 11 (C08)",
         "note": TB + "Hypotheses monitored on every case: codecs are identities; rdflib delivers a permutation up to an "
-                "injective renaming.  Known: C08-F2 (blank-node instances on re-parsed channels; "
+                "injective renaming.  The C08_nt_* compositions use the N-Triples tokeniser as it was before the "
+                "repairs; the same statements for the reader /repo has now are Props/C06Channels.v (part of this "
+                "check's proof gate).  The two-stream models follow the order of ClassShexer's stages in the code "
+                "(c_clean_before_merge): a false alarm of this check with VERIF_SEED=1 on the unchanged tree showed "
+                "that they had kept the old order (DESIGN.md section 10; C08_same_stream_single_graph, "
+                "C08_two_streams_order_refuted).  Known: C08-F2 (blank-node instances on re-parsed channels; "
                 "C08_bnode_relabel_refuted), C08-F4 (URL source with a streaming format; "
                 "C08_dispatch_url_format_refuted).  Several Turtle files are not a partition of one document "
                 "(C08_turtle_iter_partition_refuted, by design).  Fixed in /repo: C08-X-b46dc4c, C08-X-f392807, "
-                "C08-X-875de04.",
-        "technique": "executable Gallina model with table-driven dispatch from Consts.v, reader models plugged in, rdflib "
-                     "as oracle arguments; metamorphic oracle + stream and dispatch correspondence",
+                "C08-X-875de04, C08-X-0a5a744 (found as C08-F6: a commented-out statement delivered as a triple on "
+                "the line-based channels only).  Seeds C08-m5, C08-m6 are caught without a failing input only; "
+                "C08-m1 awaits re-basing (section 12).",
+        "technique": "executable Gallina model with table-driven dispatch from Consts.v, reader models plugged in, "
+                     "rdflib as oracle arguments; metamorphic oracle + stream and dispatch correspondence",
     },
     "C09": {
-        "text": "Coq theorems for ALL graphs: the declarative counts are invariant under permutation of the statements; "
-                "the tracker's dictionary of a permuted document has the same instances with permuted class lists; hence "
-                "every number of the class profile and the shape set, header counts and constraint key sets of the "
-                "whole run are those of any permutation, for any setting of remove_empty_shapes and with no success "
-                "hypothesis (C09_profile_permutation_invariant, C09_keys_permutation_invariant, "
-                "C09_keys_permutation_invariant_valid_any); an injective renaming of blank nodes that are not classes "
-                "commutes with the tracker, leaves every count unchanged and -- empty shapes kept, both runs succeeding -- "
-                "gives the same shapes, names, header counts and keys in the same order (C09_track_rename, "
-                "C09_rename_counts, C09_keys_rename_invariant).  Tied to "
-                "/repo by the byte-exact correspondence and a metamorphic oracle on pairs of real runs (random and "
-                "exhaustive permutations, relabelling, IRI stems included).",
+        "text": "Coq theorems for ALL graphs: the declarative counts are invariant under permutation of the "
+                "statements; the tracker's dictionary of a permuted document has the same instances with permuted "
+                "class lists; hence every number of the class profile and the shape set, header counts and "
+                "constraint key sets of the whole run are those of any permutation, for any setting of "
+                "remove_empty_shapes and with no success hypothesis (C09_profile_permutation_invariant, "
+                "C09_keys_permutation_invariant, C09_keys_permutation_invariant_valid_any); an injective renaming of "
+                "blank nodes that are not classes commutes with the tracker, leaves every count unchanged and -- "
+                "empty shapes kept, both runs succeeding -- gives the same shapes, names, header counts and keys in "
+                "the same order (C09_track_rename, C09_rename_counts, C09_keys_rename_invariant); with "
+                "detect_minimal_iri the IRI stem of a class and the stem printed on the shape line are invariant "
+                "under the renaming (C09_stem_rename_invariant, C09_class_stem_rename_invariant, "
+                "C09_printed_stem_rename_invariant; under c_min_iri_skips_bnode_prefix = true, i.e. since 96dbaaf).  "
+                "Tied to /repo by the byte-exact correspondence and a metamorphic oracle on pairs of real runs "
+                "(random and exhaustive permutations; relabelling with label families drawn from the whole "
+                "BLANK_NODE_LABEL grammar, blank-node heavy documents, file input; IRI stems included).",
         "design": "DESIGN.md sections 0a, 6, 11 (C09)",
         "note": TB + "Equality of the CHOSEN constraints under ties is false: C09_reference_tie_refuted, "
-                "C09_cardinality_tie_refuted (findings C09-F1, C09-F2, known); in the absence of ties it is checked by "
-                "the oracle only (no theorem).  A blank-node class breaks the renaming statement "
-                "(C09_rename_bnode_class_refuted).",
-        "technique": "Coq proof (Permutation induction, set characterisation of the tracker, congruence of occ in the "
-                     "instance dictionary) composed with P1 and the key theorem + metamorphic differential runs",
+                "C09_cardinality_tie_refuted (findings C09-F1, C09-F2, known); in the absence of ties it is checked "
+                "by the oracle only (no theorem).  A blank-node class breaks the renaming statement "
+                "(C09_rename_bnode_class_refuted).  Fixed in /repo: C09-X-96dbaaf (found as C09-F3 by the new label "
+                "families: a 'stem' cut out of blank-node labels; C09_rename_stem_refuted for the old text, "
+                "C09_rename_stem_fixed); limit of the repair: blank-node ids that do not start with '_:' (rdflib's "
+                "JSON-LD parser, user-built graphs; DESIGN.md section 10).",
+        "technique": "Coq proof (Permutation induction, set characterisation of the tracker, congruence of occ in "
+                     "the instance dictionary) composed with P1 and the key theorem + metamorphic differential runs",
     },
     "C10": {
         "text": "Coq theorems: for every graph and target specification of C10_dom written as class names (full / "
-                "bracketed / prefixed, list or file) or a shape map (fixed or JSON syntax; node, {FOCUS p o}, "
-                "{s p FOCUS}, SPARQL with rdflib's answer as an oracle argument) or both, the model of sheXer's parsers "
-                "and instance trackers succeeds and its dictionary holds key S for node n exactly when the Spec denotes "
-                "n for S, nothing else, each once on documents without repeated statements, a label never repeated, no "
-                "literal (C10_instances_denote_partial, C10_only_denoted_partial, C10_each_once_partial, "
-                "C10_labels_once); rdf:type is ordinary under a custom instantiation property (C10_tau_ordinary).  Parser "
-                "constants regenerated from /repo.  Tied to /repo by a differential run of model vs real constructor, "
-                "tracker and shex_graph plus an independent Python oracle at dictionary and text level.",
+                "bracketed / prefixed, list or file) or a shape map (fixed or JSON syntax; node, {FOCUS p o}, {s p "
+                "FOCUS}, SPARQL with rdflib's answer as an oracle argument) or both, the model of sheXer's parsers "
+                "and instance trackers succeeds and its dictionary holds key S for node n exactly when the Spec "
+                "denotes n for S, nothing else, each once on documents without repeated statements, a label never "
+                "repeated, no literal (C10_instances_denote_partial, C10_only_denoted_partial, "
+                "C10_each_once_partial, C10_labels_once); rdf:type is ordinary under a custom instantiation property "
+                "(C10_tau_ordinary).  Parser constants regenerated from /repo.  Tied to /repo by a differential run "
+                "of model vs real constructor, tracker and shex_graph plus an independent Python oracle at "
+                "dictionary and text level.",
         "design": "DESIGN.md sections 0a, 6, 11 (C10)",
         "note": TB + "rdflib's parse, FOCUS / SPARQL evaluation and blank-node ids are oracle arguments (monitored).  "
-                "Known, each refuted in Coq: C10-F1 (blank node keyed by rdflib's id), C10-F5, C10-F6, C10-F7, C10-F8, "
-                "C10-F9.  Fixed in /repo: C10-X-72d68cb, C10-X-cf40ad9, C10-X-9a400c9 (C10_prefixed_label_fixed, "
-                "C10_at_in_iri_fixed, C10_repeated_answer_fixed).",
-        "technique": "Coq proofs by induction over triples / items plus string lemmas (parse o render); extracted-model "
-                     "correspondence; Spec-level Python oracle with figure recomputation",
+                "Known, each refuted in Coq: C10-F1 (blank node keyed by rdflib's id), C10-F5, C10-F6, C10-F7, "
+                "C10-F8.  Fixed in /repo: C10-X-72d68cb, C10-X-cf40ad9, C10-X-9a400c9 (C10_prefixed_label_fixed, "
+                "C10_at_in_iri_fixed, C10_repeated_answer_fixed), C10-X-705c27c (found as C10-F9: a name repeating "
+                "its own prefix; C10_prefix_in_local_no_root_cause, C10_prefix_in_local_fixed), C10-X-6e7011d (found "
+                "as C10-F10: the text 'SPARQL' removed everywhere in a selector; C10_sparql_kw_no_root_cause, "
+                "C10_sparql_kw_in_query_fixed).  A literal is never a class (C10_class_instance_by_iri_object; "
+                "documents with literals spelled like a class IRI are generated since seed C10-m4).  Seed C10-m2 "
+                "awaits re-basing onto 705c27c.",
+        "technique": "Coq proofs by induction over triples / items plus string lemmas (parse o render); "
+                     "extracted-model correspondence; Spec-level Python oracle with figure recomputation",
     },
     "C11": {
-        "text": "Coq theorems: for every statement of C11_dom -- kinds IRI, BNode, NONLITERAL, shape reference, datatype; "
-                "instantiation constraints of any cardinality and direction; all {k>=1}, +, *, ?; every http(s) "
-                "predicate; every dictionary with distinct readable prefixes -- the model of the SHACL serialiser emits "
-                "exactly the encoding of what the model of the ShExC serialiser prints and decodes back to it "
-                "(C11_views_agree, C11_read_back); one node shape per shape, same IRI, sh:targetClass = class, one "
-                "property shape per constraint, in order (C11_shapes_agree); C11_cardinality_table for all k.  The "
-                "node-kind table, SHACL vocabulary, cardinality tables and the serialiser's helper-call sequences are "
-                "regenerated from shacl_serializer.py on every run.  Tied to /repo by per-line correspondence of both "
-                "views against one real Shaper's two outputs, whole-document isomorphism with the model's SHACL graph, a "
-                "property-text oracle (rdflib + ShExC canonicaliser) and a complete grid of synthetic statements.",
+        "text": "Coq theorems: for every statement of C11_dom -- kinds IRI, BNode, NONLITERAL, shape reference, "
+                "datatype; instantiation constraints of any cardinality and direction; all {k>=1}, +, *, ?; every "
+                "http(s) predicate; every dictionary with distinct readable prefixes -- the model of the SHACL "
+                "serialiser emits exactly the encoding of what the model of the ShExC serialiser prints and decodes "
+                "back to it (C11_views_agree, C11_read_back); one node shape per shape, same IRI, sh:targetClass = "
+                "class, one property shape per constraint, in order (C11_shapes_agree); C11_cardinality_table for "
+                "all k.  The node-kind table, SHACL vocabulary, cardinality tables and the serialiser's helper-call "
+                "sequences are regenerated from shacl_serializer.py on every run.  Tied to /repo by per-line "
+                "correspondence of both views against one real Shaper's two outputs, whole-document isomorphism with "
+                "the model's SHACL graph, a property-text oracle (rdflib + ShExC canonicaliser) and a complete grid "
+                "of synthetic statements.",
         "design": "DESIGN.md sections 0a, 6, 11 (C11)",
-        "note": TB + "Conditions: http(s) predicates and class values, no OR statements (C11_dot_macro_disagrees), "
-                "detect_minimal_iri off (sh:pattern is C05_shacl_any_detect).  No known finding.  Fixed in /repo: "
-                "C11-X-3370abe-bnode, C11-X-3370abe-nonliteral, C11-X-48b7fcb-cardinality, C11-X-48b7fcb-inverse "
-                "(regression cases under corpus/C11).",
+        "note": TB + "Conditions: http(s) predicates and class values, no OR statements (C11_dot_macro_disagrees; SHACL "
+                "raises on a disjunction: finding C04-F3), detect_minimal_iri off (sh:pattern is "
+                "C05_shacl_any_detect).  sh:targetClass is the class key with one pair of corners removed since "
+                "e73c6a2 (C11_target_class_key; the key itself for class-based runs: C11_shapes_agree_class).  No "
+                "known finding.  Fixed in /repo: C11-X-3370abe-bnode, C11-X-3370abe-nonliteral, "
+                "C11-X-48b7fcb-cardinality, C11-X-48b7fcb-inverse (regression cases under corpus/C11).  Not caught "
+                "at present: seed C11-m6 (a ShExC string beyond the 5000-line buffer: no such document in this "
+                "check) and C11-m5 (not judged); DESIGN.md section 12.",
         "technique": "Gallina models of both serialisers over one statement; case analysis on kind x cardinality x "
                      "direction; string lemmas for the IRI print/read round trip; differential check",
     },
     "C12": {
-        "text": "Coq theorems for ALL graphs and configurations: with thr1 <= thr2 (CPython binary64 comparison; also "
-                "exact rationals, unbounded) every shape and key present at thr2 is present at thr1 -- empty shapes "
-                "kept (C12_run_keys_monotone, C12_run_keys_monotone_exact) or removed, any target mode, thresholds <= 1, "
-                "no class IRI starting with '%' or '@' (C12_run_keys_monotone_valid) --, every figure is a profile entry independent of the threshold "
-                "(C12_figures_from_profile, C12_figure_threshold_free), the threshold reaches the pipeline only through "
-                "the shexing stage (C12_threshold_only_in_shex); shape-map runs with empty shapes kept: "
-                "C12_map_keys_monotone.  Tied to /repo by the correspondence of the extracted model and a metamorphic "
-                "oracle over fresh real Shapers at all ordered pairs of a k/n threshold grid.",
+        "text": "Coq theorems for ALL graphs and configurations: with thr1 <= thr2 (CPython binary64 comparison; "
+                "also exact rationals, unbounded) every shape and key present at thr2 is present at thr1 -- empty "
+                "shapes kept (C12_run_keys_monotone, C12_run_keys_monotone_exact) or removed, any target mode, "
+                "thresholds <= 1, no class IRI starting with '%' or '@' (C12_run_keys_monotone_valid) --, every "
+                "figure is a profile entry independent of the threshold (C12_figures_from_profile, "
+                "C12_figure_threshold_free), the threshold reaches the pipeline only through the shexing stage "
+                "(C12_threshold_only_in_shex); shape-map runs with empty shapes kept: C12_map_keys_monotone.  Tied "
+                "to /repo by the correspondence of the extracted model and a metamorphic oracle over fresh real "
+                "Shapers at all ordered pairs of a k/n threshold grid.",
         "design": "DESIGN.md sections 0a, 6, 11 (C12)",
         "note": TB + "Known: C12-F1 (the figure of the merged NONLITERAL alternative changes with the threshold; "
-                "ShexStage_nonliteral_figure_refuted).  Fixed in /repo: C12-F2 (a3b99df: a reference to a shape that "
-                "ended up empty was deleted outright; C12_remove_key_run_refuted for the old order, "
-                "C12_remove_key_run_fixed).  Shape-map runs with remove_empty_shapes on: oracle only.",
+                "ShexStage_nonliteral_figure_refuted), C12-F3 (instances_cap counts typing STATEMENTS, not nodes: a "
+                "typing statement written twice takes two places under the cap, so threshold 0 omits an observed "
+                "feature and threshold 1 keeps a feature of one node of two; C12_repeated_typing_cap_refuted, "
+                "C12_repeated_typing_nocap; found by the stream of documents with repeated statements added for seed "
+                "C12-m4).  Fixed in /repo: C12-F2 (a3b99df: a reference to a shape that ended up empty was deleted "
+                "outright; C12_remove_key_run_refuted for the old order, C12_remove_key_run_fixed).  Shape-map runs "
+                "with remove_empty_shapes on: oracle only.  Besides the pairwise relation the oracle holds every "
+                "case to the anchors (threshold 0 omits nothing observed, threshold 1 keeps only what all instances "
+                "have; recount on the set of triples).  Run theorems about Run.run_shapes reach the code through "
+                "E2E_cur_run_keys_monotone_valid (Props/ShexStage.v); FreqLawsProps is part of the proof gate and "
+                "Lib/Bin64 is compared with CPython floats on every run.",
         "technique": "Coq proof (transitivity of the binary64 order from a software model of IEEE division; key-set "
                      "preservation through both merges) + differential correspondence + metamorphic oracle",
     },
     "C13": {
-        "text": "Coq equations for ALL graphs: disable_comments, allow_opt_cardinality, disable_exact_cardinality and "
-                "all_instances_are_compliant_mode change the shapes exactly by dropping comments / ?->* / {k>1}->+ / the "
-                "per-statement relaxation (C13_run_disable_comments, C13_run_allow_opt_cardinality, "
-                "C13_run_disable_exact_cardinality, C13_run_all_compliant); disable_or_statements=False only replaces "
-                "merged statements by disjunctions of the same alternatives (C13_run_disable_or_statements); "
-                "instances_report_mode and the namespaces dictionary never change the shapes.  On the TEXT and on its "
-                "BYTES: disable_comments removes exactly the comments and instances_report_mode changes only the inside "
-                "of comments (C13_run_shexc_disable_comments_bytes, C13_run_shexc_report_mode_bytes); two namespaces "
-                "dictionaries give documents equal after expansion (C13_text_namespaces).  Tied to /repo by the "
-                "byte-exact correspondence and a one-factor-at-a-time metamorphic oracle on real runs, incl. file vs "
-                "string output beyond the 5000-line buffer.",
+        "text": "Coq equations for ALL graphs: disable_comments, allow_opt_cardinality, disable_exact_cardinality "
+                "and all_instances_are_compliant_mode change the shapes exactly by dropping comments / ?->* / "
+                "{k>1}->+ / the per-statement relaxation (C13_run_disable_comments, C13_run_allow_opt_cardinality, "
+                "C13_run_disable_exact_cardinality, C13_run_all_compliant); disable_or_statements=False only "
+                "replaces merged statements by disjunctions of the same alternatives "
+                "(C13_run_disable_or_statements); instances_report_mode and the namespaces dictionary never change "
+                "the shapes.  On the TEXT and on its BYTES: disable_comments removes exactly the comments and "
+                "instances_report_mode changes only the inside of comments (C13_run_shexc_disable_comments_bytes, "
+                "C13_run_shexc_report_mode_bytes); two namespaces dictionaries give documents equal after expansion "
+                "(C13_text_namespaces).  Tied to /repo by the byte-exact correspondence and a one-factor-at-a-time "
+                "metamorphic oracle on real runs, incl. file vs string output beyond the 5000-line buffer.",
         "design": "DESIGN.md sections 0a, 6, 11 (C13)",
         "note": TB + "decimals is rendered by the harness shim (not in the model): checked numerically; known: C13-F1 "
                 "(decimals=0 truncates; pinned by a golden file).  The all-compliant equation holds on O4_dom "
-                "(C13_all_compliant_comment_refuted outside).  Fixed in /repo: C13-X-62f08fb.",
-        "technique": "Coq proof of commuting equations between two configurations, lifted to the structured text and to "
-                     "bytes + differential correspondence + pairwise metamorphic oracle",
+                "(C13_all_compliant_comment_refuted outside).  Fixed in /repo: C13-X-62f08fb.  The option pairs are "
+                "class-mode runs on fresh Shapers: no shape with a single constraint, no second call on one Shaper "
+                "-- the seeded changes C13-m5 and C13-m6 are MISSED at present (DESIGN.md section 12).",
+        "technique": "Coq proof of commuting equations between two configurations, lifted to the structured text and "
+                     "to bytes + differential correspondence + pairwise metamorphic oracle",
     },
     "C14": {
-        "text": "Coq theorems for ALL graphs: with inverse_paths the direct statements, header count and label of every "
-                "shape are those of the run without it -- any target mode, any remove_empty_shapes, thresholds <= 1, no "
-                "class IRI starting with '%' or '@' "
-                "(C14_run_direct_unchanged_valid; C14_run_direct_unchanged with empty shapes kept) -- and the inverse "
-                "statements are exactly what the direct strategy computes from the inverse features, flagged '^' "
-                "(C14_inverse_part_binary64); for graphs whose non-typing triples link IRI nodes the inverse features "
-                "are the direct features of the graph with those triples reversed, for counts, the whole profile "
-                "(equal as dictionaries, order included) and, empty shapes kept, the statements "
-                "(C14_occ_inverse_is_reverse, C14_inverse_is_reverse_entries, C14_inverse_is_reverse_statements).  Tied "
-                "to /repo by the correspondence and a three-run metamorphic oracle (G with, G without, reverse(G) "
-                "without).",
+        "text": "Coq theorems for ALL graphs: with inverse_paths the direct statements, header count and label of "
+                "every shape are those of the run without it -- any target mode, any remove_empty_shapes, thresholds "
+                "<= 1, no class IRI starting with '%' or '@' (C14_run_direct_unchanged_valid; "
+                "C14_run_direct_unchanged with empty shapes kept) -- and the inverse statements are exactly what the "
+                "direct strategy computes from the inverse features, flagged '^' (C14_inverse_part_binary64); for "
+                "graphs whose non-typing triples link IRI nodes the inverse features are the direct features of the "
+                "graph with those triples reversed, for counts, the whole profile (equal as dictionaries, order "
+                "included) and, empty shapes kept, the statements (C14_occ_inverse_is_reverse, "
+                "C14_inverse_is_reverse_entries, C14_inverse_is_reverse_statements).  Tied to /repo by the "
+                "correspondence and a three-run metamorphic oracle (G with, G without, reverse(G) without).",
         "design": "DESIGN.md sections 0a, 6, 11 (C14)",
         "note": TB + "The reversal needs IRI nodes: blank-node subjects of incoming links get no shape references by "
-                "design (C14_keys_inverse_bnode_refuted), the property's own exclusion.  No finding.",
-        "technique": "Coq proof (filtering commutes with the stable sort; direct / inverse code paths related by a swap; "
-                     "reversal of the graph) + differential correspondence + metamorphic oracle",
+                "design (C14_keys_inverse_bnode_refuted), the property's own exclusion.  No finding.  Since seeds "
+                "C14-m3 / C14-m4 the check also runs documents with literals spelled like a node, class or property "
+                "of the graph and shape-map cases whose targets only ever occur as objects, and recounts the "
+                "incoming constraints from the triples.  Run theorems about Run.run_shapes reach the code through "
+                "E2E_cur_run_direct_unchanged_valid (Props/ShexStage.v, part of the proof gate).",
+        "technique": "Coq proof (filtering commutes with the stable sort; direct / inverse code paths related by a "
+                     "swap; reversal of the graph) + differential correspondence + metamorphic oracle",
     },
     "C15": {
-        "text": "Coq theorems about an executable model of the endpoint path -- result reader, token tuning, per-node "
-                "cache with its local graph, depth-1 traversal, class / selector queries with LIMIT, the tracker's early "
-                "stop -- with the endpoint's answer order as an oracle argument: for all graphs of C15_dom, all modes "
-                "and both cache settings each pass is delivered exactly the statements touching its targets, each once "
-                "(C15_triples, C15_delivered_once), the cache never changes what is delivered (C15_cache_same_result), "
-                "the cached query log is a subsequence of the uncached one with no node fetched twice "
-                "(C15_cache_log_partial), what is delivered is a permutation of what the local feature pass considers "
-                "(C15_equals_local_partial), targets come in first-occurrence order (C15_targets_first_occurrence).  "
-                "Tied to /repo by exact query-sequence and delivered-triple correspondence against an in-process "
-                "rdflib-backed endpoint and a metamorphic oracle endpoint vs local extraction.",
+        "text": "Coq theorems about an executable model of the endpoint path -- result reader, token tuning, "
+                "per-node cache with its local graph, depth-1 traversal, class / selector queries with LIMIT, the "
+                "tracker's early stop -- with the endpoint's answer order as an oracle argument: for all graphs of "
+                "the domain (dom: IRI nodes, literals that read back as the local path reads them, no repeated "
+                "statement; names_ok: the selector parser's keyword removal changes no class name and "
+                "all_classes_mode lists the classes of the instantiation property -- true of every input since "
+                "6e7011d / 6a980b4: C15_names_no_root_cause), all modes and both cache settings each pass is "
+                "delivered exactly the statements touching its targets, each once (C15_triples, C15_delivered_once), "
+                "the cache never changes what is delivered (C15_cache_same_result), the cached query log is a "
+                "subsequence of the uncached one with no node fetched twice (C15_cache_log_partial), what is "
+                "delivered is a permutation of what the local feature pass considers (C15_equals_local_partial), "
+                "targets come in first-occurrence order (C15_targets_first_occurrence).  Tied to /repo by exact "
+                "query-sequence and delivered-triple correspondence against an in-process rdflib-backed endpoint and "
+                "a metamorphic oracle endpoint vs local extraction; planted streams: language-tag and embedded-quote "
+                "twins, custom instantiation property, names holding 'SPARQL', prefixed / bracketed target classes.",
         "design": "DESIGN.md sections 0a, 6, 11 (C15)",
         "note": TB + "Also tools/gen_consts_c15.py (Gen/ConstsC15.v).  Partial: the log statement when pass 1 reads the "
                 "whole stream; equality of the shapes rests on C09 (keys and counts).  Known: C15-F3 (blank nodes "
                 "answered by an endpoint; C15_bnode_refuted), C15-F6 (LIMIT sent once per pass without ORDER BY; "
                 "C15_limit_two_selects_refuted).  Fixed in /repo: C15-X-bc610c7, C15-X-1a7b577, C15-X-49681e3, "
-                "C15-X-9a43704.  The HTTP client is replaced by monkey-patching "
+                "C15-X-9a43704, C15-X-5ceb1a7-F7 and -F8 (found as C15-F7 / F8: the cache merged literals differing "
+                "only in the language tag / after an embedded quote; C15_cache_keeps_lang_fixed, "
+                "C15_cache_keeps_quote_fixed), C15-X-6a980b4 (C15-F9: all_classes_mode ignored a custom "
+                "instantiation property; C15_all_classes_tau_fixed), C15-X-6e7011d (C15-F10: 'SPARQL' removed from "
+                "class IRIs; C15_sparql_in_class_fixed).  The HTTP client is replaced by monkey-patching "
                 "shexer.io.sparql.query._query_endpoint_json_result; rdflib evaluates the query text.",
         "technique": "executable Gallina model with oracle arguments; cache invariant by induction over requests; "
                      "differential correspondence on exact query / triple sequences; metamorphic oracle",
     },
     "C16": {
-        "text": "Coq theorems: the tracker model with a cap lists per class exactly its first min(k,|class|) instances "
-                "in both target modes (C16_cap_firstn, C16_cap_dictionary; the early stop is harmless: "
+        "text": "Coq theorems: the tracker model with a cap lists per class exactly its first min(k,|class|) "
+                "instances in both target modes (C16_cap_firstn, C16_cap_dictionary; the early stop is harmless: "
                 "C16_cap_early_stop), equals the uncapped tracker on the restricted document, hence the whole ShExC "
                 "output equals the extraction whose instance pass reads the restricted document "
                 "(C16_cap_is_restriction_run), all figures of a capped run are exact for the first-k subset "
                 "(C16_cap_figures_exact), a cap not smaller than every class or the source default changes nothing "
                 "(C16_cap_large_id_run, C16_cap_large_is_default); namespaces_to_ignore deletes exactly the "
                 "direct-child-predicate triples from the feature pass only (C16_ns_filter, C16_ns_child_rule, "
-                "C16_ns_nested).  Tied to /repo byte for byte and by two-real-run metamorphic oracles, exhaustive over "
-                "the orderings of <= 5 typing triples.",
+                "C16_ns_nested).  Tied to /repo byte for byte and by two-real-run metamorphic oracles, exhaustive "
+                "over the orderings of <= 5 typing triples.",
         "design": "DESIGN.md sections 0a, 6, 11 (C16)",
         "note": TB + "Hypotheses of the first-k statement: NoDup g, ids_faithful g (C16_duplicate_line_witness).  'In "
-                "document order' is proved as Permutation plus the exact dictionary (C16_order_witness).  Fixed in "
-                "/repo: C16-X-0def8b0 (C16_F1_regression).  No known finding.",
-        "technique": "induction over the triple stream with a cap-as-filter characterisation, invariant plus pigeonhole "
-                     "for the early stop; differential and metamorphic runs",
+                "document order' is proved as Permutation plus the exact dictionary (C16_order_witness).  "
+                "C16_cap_is_restriction_run is stated for the run with ClassShexer's stages in the order of the code "
+                "(run_shexc_cur) against the two-document run; for Run.run_shexc on the computed domain order_dom: "
+                "C16_cap_is_restriction_run_modelled; with two documents the stage order matters "
+                "(C16_two_documents_order_refuted, C16_two_documents_order_irrelevant).  Fixed in /repo: "
+                "C16-X-0def8b0 (C16_F1_regression).  No known finding.  No case lists several files out of sorted "
+                "order: the seeded change C16-m5 is MISSED at present (DESIGN.md section 12).",
+        "technique": "induction over the triple stream with a cap-as-filter characterisation, invariant plus "
+                     "pigeonhole for the early stop; differential and metamorphic runs",
     },
     "C17": {
-        "text": "Coq theorems: for ALL id lists of C17_dom the printed stem is a common prefix ending at ':', '/' or '#', "
-                "has >= 3 characters, is not a bare scheme and is the longest such stem; none is printed only when none "
-                "is admissible; independent of instance order; per class the fold computes it (C17_stem_longest, "
-                "C17_stem_none, C17_stem_order_independent, C17_class_stem); for all graphs and modes the shape example "
-                "is an instance of the class and a constraint example a value of the property in that direction "
-                "(C17_examples_from_data); and on the printed TEXT: neither option changes a constraint, the text with "
-                "decorations stripped is the plain text, what is printed is that stem / such an example "
-                "(C17_structure_unchanged, C17_text_strip_decor, C17_printed_stem_longest, "
-                "C17_printed_example_from_data).  Tied to /repo by bounded-exhaustive function-level correspondence "
-                "(1.2 M rows), byte-exact decorated texts and end-to-end runs with a brute-force oracle.",
+        "text": "Coq theorems: for ALL id lists of C17_dom (every well-formed id list since 96dbaaf: C17_dom_unfold) "
+                "the printed stem is a common prefix ending at ':', '/' or '#', has >= 3 characters, is not a bare "
+                "scheme and is the longest such stem; none is printed only when none is admissible; a class with a "
+                "blank-node instance gets none; independent of instance order; per class the fold computes it "
+                "(C17_stem_longest, C17_stem_none, C17_stem_bnode_class_none, C17_stem_order_independent, "
+                "C17_class_stem); for all graphs and modes the shape example is an instance of the class and a "
+                "constraint example a value of the property in that direction, and every class with an instance gets "
+                "a shape example (C17_examples_from_data, C17_shape_example_complete); and on the printed TEXT: "
+                "neither option changes a constraint, the text with decorations stripped is the plain text, what is "
+                "printed is that stem / such an example (C17_structure_unchanged, C17_text_strip_decor, "
+                "C17_printed_stem_longest, C17_printed_example_from_data); printing the example line raises for no "
+                "shape of any run (C17_F4_repaired, C17_example_line_never_raises, since a9573a5).  Tied to /repo by "
+                "bounded-exhaustive function-level correspondence (1.2 M rows), byte-exact decorated texts and "
+                "end-to-end runs with a brute-force oracle.",
         "design": "DESIGN.md sections 0a, 6, 11 (C17)",
-        "note": TB + "Known: C17-F3 (examples lose their node kind when printed; C17_F3_as_printed), C17-F4 "
-                "(examples_mode raises on a printed shape without instance; C17_F4_refuted).  Fixed in /repo: "
-                "C17-X-a83169a, C17-X-cb32cb4.  Ids starting with the shape sentinel are outside the domain "
-                "(C17_sentinel_refuted).",
-        "technique": "Gallina model + Consts.v + bounded-exhaustive function-level and sampled end-to-end differential "
-                     "correspondence + brute-force Spec oracle",
+        "note": TB + "Known: C17-F3 (examples lose their node kind when printed; C17_F3_as_printed).  Fixed in /repo: "
+                "C17-X-a83169a, C17-X-cb32cb4, C17-X-a9573a5 (found as C17-F4: examples_mode raised on a printed "
+                "shape without instance; C17_F4_refuted for the old text), C17-X-96dbaaf (found as C17-F5 = C09-F3: "
+                "a stem cut out of blank-node labels; C17_bnode_label_stem_refuted for the old text, "
+                "C17_bnode_label_stem_fixed).  Ids starting with the shape sentinel are outside the domain "
+                "(C17_sentinel_refuted).  Blank-node ids without '_:' are the limit of 96dbaaf (DESIGN.md section "
+                "10).",
+        "technique": "Gallina model + Consts.v + bounded-exhaustive function-level and sampled end-to-end "
+                     "differential correspondence + brute-force Spec oracle",
     },
     "C18": {
-        "text": "Coq theorems about a state machine of the Shaper API glue -- store of namespace-dictionary objects, memo "
-                "slots, statement mutation by examples_mode, the line buffer flushed every flush_size lines (from "
-                "Consts.v) to a string or file: the file sink's content equals the string sink's result and the "
-                "concatenation of the lines for ANY number of lines, flush size and prior file content "
-                "(C18_file_eq_string); for every pipeline and every well-formed history of ANY length over any number "
-                "of Shapers every call returns or writes exactly what a fresh Shaper returns for the call's own "
-                "arguments (C18_pure, C18_free_pure); with the concrete tracker, profiler, shexing stage and serialiser "
-                "plugged in every ShExC call is run_shexc of its own arguments and threshold "
-                "(C18_shex_calls_are_run_shexc, C18_threshold_honoured).  Tied to /repo by predicting every output of "
-                "all 2379 call histories of length <= 3 on four configurations (incl. outputs beyond two 5000-line "
-                "flushes) and pairs of Shapers sharing a dictionary, against fresh-Shaper references.",
+        "text": "Coq theorems about a state machine of the Shaper API glue -- store of namespace-dictionary objects, "
+                "memo slots, statement mutation by examples_mode, the line buffer flushed every flush_size lines "
+                "(from Consts.v) to a string or file: the file sink's content equals the string sink's result and "
+                "the concatenation of the lines for ANY number of lines, flush size and prior file content "
+                "(C18_file_eq_string); for every pipeline and every well-formed history of ANY length over any "
+                "number of Shapers every call returns or writes exactly what a fresh Shaper returns for the call's "
+                "own arguments (C18_pure, C18_free_pure); with the concrete tracker, profiler, shexing stage and "
+                "serialiser plugged in every ShExC call is run_shexc of its own arguments and threshold "
+                "(C18_shex_calls_are_run_shexc, C18_threshold_honoured); every profile_graph call is "
+                "run_profile_json of its own arguments, file sink = string sink "
+                "(C18_profile_calls_are_run_profile_json, C18_profile_file_eq_string).  Tied to /repo by predicting "
+                "every output of all 2379 call histories of length <= 3 on four configurations (incl. outputs beyond "
+                "two 5000-line flushes) and pairs of Shapers sharing a dictionary, against fresh-Shaper references, "
+                "and by a profile channel (random graphs and configurations, profile_graph to string / file mixed "
+                "with shex_graph) compared byte for byte with the model.",
         "design": "DESIGN.md sections 0a, 6, 11 (C18)",
-        "note": TB + "SHACL and profile texts stay abstract stages; 'the SHACL serialiser ignores example comments' is "
-                "monitored.  No known finding.  Fixed in /repo: C18-X-1b070df, C18-X-51cea95, C18-X-b8215b0, "
-                "C18-X-15b8381 (C18_former_witnesses).",
-        "technique": "Gallina state machine over an abstract pipeline, instantiated with the concrete one; induction over "
-                     "the history and over the line list; correspondence with the real Shaper on all histories <= 3",
+        "note": TB + "SHACL texts stay an abstract stage; 'the SHACL serialiser ignores example comments' is monitored.  "
+                "A call after a call that RAISED is outside the histories claimed: a Shaper whose first call raised "
+                "inside the profiler is left half-adapted (counted under monitored_not_judged; DESIGN.md section "
+                "10).  No known finding.  Fixed in /repo: C18-X-1b070df, C18-X-51cea95, C18-X-b8215b0, C18-X-15b8381 "
+                "(C18_former_witnesses).",
+        "technique": "Gallina state machine over an abstract pipeline, instantiated with the concrete one; induction "
+                     "over the history and over the line list; correspondence with the real Shaper on all histories "
+                     "<= 3",
     },
     "C19": {
-        "text": "Coq theorems that the places where a result could depend on something other than the arguments do not: "
-                "the shapes prefix is independent of the random oracle iff a priority prefix is free, for all "
+        "text": "Coq theorems that the places where a result could depend on something other than the arguments do "
+                "not: the shapes prefix is independent of the random oracle iff a priority prefix is free, for all "
                 "dictionaries (C19_prefix_oracle_independent, C19_prefix_random_iff_all_taken); the two 'shapes to "
                 "remove' sets give the same result under any iteration order (C19_profile_removal_order_independent, "
-                "C19_shape_removal_order_independent); the pipeline model (tracker, profiler, shexing, serialiser) takes no "
-                "oracle argument at all.  The "
-                "list of nondeterminism sites is tied to the source by an AST scan against corpus/C19/sites.json on "
-                "every run; every case is run in fresh interpreters under 8 / 64 PYTHONHASHSEED values and the ShExC "
-                "bytes / SHACL digests compared.",
+                "C19_shape_removal_order_independent); the key order of the instance dictionary merged by "
+                "MixedInstanceTracker._integrate_dicts is a function of the key orders of its two arguments "
+                "(C19_integrate_dicts_key_order); the pipeline model (tracker, profiler, shexing, serialiser) takes "
+                "no oracle argument at all.  The list of nondeterminism sites is tied to the source by an AST scan "
+                "against corpus/C19/sites.json on every run (29 sites; set algebra on dictionary views counts as set "
+                "creation; reviewed functions pinned by the hash of their source); every case is run in fresh "
+                "interpreters under 8 / 64 PYTHONHASHSEED values and the ShExC bytes / SHACL digests compared, incl. "
+                "shape map + all_classes_mode runs, tie graphs and all 16 subsets of the default shapes prefixes "
+                "already bound by the user.",
         "design": "DESIGN.md sections 0a, 6, 11 (C19)",
-        "note": TB + "rdflib's iteration order and blank-node ids are not modelled: any rdflib-sourced input is "
-                "hash-seed dependent (C19-F1, known).  Fixed in /repo: C19-X-c9a1e70 (target nodes in a set; "
+        "note": TB + "rdflib's iteration order and blank-node ids are not modelled: any rdflib-sourced input is hash-seed "
+                "dependent (C19-F1, known).  Fixed in /repo: C19-X-c9a1e70 (target nodes in a set; "
                 "C19_target_order_refuted documents why).  Also trusted: the AST scanner's site patterns.",
-        "technique": "explicit oracle arguments with independence theorems + AST scan of nondeterminism sites + fresh "
-                     "interpreters across hash seeds",
+        "technique": "explicit oracle arguments with independence theorems + AST scan of nondeterminism sites + "
+                     "fresh interpreters across hash seeds",
     },
     "C20": {
         "text": "Coq theorem that the model of Shaper.__init__'s checks plus the shape-map stage accepts exactly the "
                 "configurations of the property's reference predicate and rejects all others with ValueError "
                 "(C20_ctor_iff on C20_dom; C20_ctor_accept_sound everywhere; C20_call_iff for shex_graph), with the "
-                "membership lists regenerated from shaper.py on every run, and a bounded-exhaustive differential run of "
-                "the model against the real constructor (all 8192 presence patterns, enum combinations per single "
-                "source, present-but-falsy arguments, call cases as first and second call).",
+                "membership lists regenerated from shaper.py on every run, and a bounded-exhaustive differential run "
+                "of the model against the real constructor (all 8192 presence patterns, enum combinations per single "
+                "source, present-but-falsy arguments, call cases as first and second call, invalid calls on a Shaper "
+                "whose graph file does not exist).",
         "design": "DESIGN.md sections 0a, 6, 11 (C20)",
         "note": TB + "Dummy argument values stand for their presence pattern; rdflib's construction-time behaviour is "
-                "modelled as observed.  Off C20_dom the full statement is refuted (C20_full_refuted): C20-F1, C20-F2, "
-                "C20-F3, known (a shape map with a multi-file / URL source, a streaming format or a compressed file "
-                "fails inside rdflib at construction).",
+                "modelled as observed.  Off C20_dom the full statement is refuted (C20_full_refuted): C20-F1, "
+                "C20-F2, C20-F3, known (a shape map with a multi-file / URL source, a streaming format or a "
+                "compressed file fails inside rdflib at construction).",
         "technique": "Coq proof (destruct + boolean reflection) over a finite configuration record + exhaustive "
                      "model / implementation correspondence",
     },
